@@ -150,6 +150,17 @@ def check_ll(e, Sigma, sm, Y):
             return dict(what=f'log_likelihood raised {type(ex).__name__} for a data panel in {lay} memory layout', input=dict(inp, layout=lay), signature=dict(op='log_likelihood', cond='layout', layout=lay))
         if not (gl == got or abs(gl - got) <= 1e-9 * max(1.0, abs(got))):
             return dict(what='log_likelihood depends on the memory layout of the data panel', input=dict(inp, layout=lay), observed=float(gl), expected=float(got), signature=dict(op='log_likelihood', cond='layout', layout=lay))
+    # the same NUMBERS held in another real dtype (an integer-valued panel stored as int64 / int32 / float32, measurement errors as given) are the same data
+    Yint = np.round(4 * Y)
+    try:
+        ref = e.log_likelihood(Yint.astype(float), Sigma, sm)
+        for dt in (np.int64, np.int32, np.float32):
+            gd = e.log_likelihood(Yint.astype(dt), Sigma, sm)
+            if not (gd == ref or abs(gd - ref) <= 1e-9 * max(1.0, abs(ref))):
+                return dict(what='log_likelihood depends on the dtype in which the same data panel is stored', input=dict(inp, Y=Yint.tolist(), dtype=np.dtype(dt).name), observed=float(gd), expected=float(ref),
+                            signature=dict(op='log_likelihood', cond='dtype', dtype=np.dtype(dt).name))
+    except np.linalg.LinAlgError:
+        pass
     sign, logdet = np.linalg.slogdet(V)
     y = Y.ravel()
     exp = -(logdet + y @ np.linalg.solve(V, y)) / 2
